@@ -5,5 +5,9 @@
 #include <ImathMatrixAlgo.h>
 OPAQUE_LENGTH (Vec3, "V3", 3)
 using namespace IMATH_INTERNAL_NAMESPACE;
+#include "c10priv.h"
+C10_STEAL (symns::Sym)
+C10_STEAL (double)
+C10_STEAL (float)
 #include "ops_c10.h"
 int main (int argc, char** argv) { return symns::sym_main (argc, argv); }
